@@ -483,6 +483,48 @@ def enum_bounds(max_h=3):
             yield ops
 
 
+def enum_cost3(rng=None, sample=None):
+    """C02 (seed C02-m9): three expectations that all accept the call, each in its own sequence behind 0..3 optional steps or
+    one required step (cost 0, 1, 2, 3, blocked), every combination and both creation orders of the predecessors; then the call,
+    queries, and further calls.  The selection depends on the costs of ALL candidates, not of neighbouring ones only."""
+    kinds = [0, 1, 2, 3, 'B']
+    combos = list(itertools.product(kinds, repeat=3))
+    tails = [['call'], ['call', 'call'], ['call', 'q', 'call', 'call']]
+    picks = list(itertools.product(combos, tails))
+    if sample is not None and sample < len(picks):
+        picks = rng.sample(picks, sample)
+    for cs, tail in picks:
+        ops = [dict(op='mock', o=0, movable=True)] + [dict(op='seq', s=j) for j in range(3)]
+        eid = 0
+        pv = 10
+        for j, c in enumerate(cs):
+            n = 1 if c == 'B' else c
+            for _ in range(n):
+                if c == 'B':
+                    ops.append(_exp(eid, 0, 0, ['eq:%d' % pv], 1, 1, [j], rt=False, tk=0, sf=0, R='none'))
+                else:
+                    ops.append(_exp(eid, 0, 0, ['eq:%d' % pv], 0, INF, [j], rt=False, tk=3, sf=0, R='none'))
+                eid += 1
+                pv += 1
+        targets = []
+        for j in range(3):
+            ops.append(_exp(eid, 0, 1, ['_'], 1, 1, [j], rt=False, tk=0, sf=0, R='val:%d' % (100 + j)))
+            targets.append(eid)
+            eid += 1
+        for t in tail:
+            if t == 'call':
+                ops.append(dict(op='call', o=0, fn=1, a=[1]))
+            else:
+                for e in targets:
+                    ops.append(dict(op='sat', e=e))
+                    ops.append(dict(op='satd', e=e))
+                for j in range(3):
+                    ops.append(dict(op='completed', s=j))
+        for e in range(eid):
+            ops.append(dict(op='release', e=e))
+        yield ops
+
+
 def enum_lifetimes(rng=None, sample=None):
     """C04: 1–2 expectations × bounds × counts × every order of {release, kill, move-then-kill,
     earlier no-match listing, earlier forbidden report, saturation}."""
